@@ -167,6 +167,7 @@ fn new_member(h: &mut Hist, p: &Profile, nested_pct: u32) -> (Member, Cid) {
                 }),
                 always_ready: false,
                 resumable: false,
+                wake_on_drop: w(|w| w.chance(p.drop_wake_pct)),
             })
             .collect();
         let mut b = Builder { scripts: VecDeque::from(scripts) };
@@ -183,6 +184,7 @@ fn new_member(h: &mut Hist, p: &Profile, nested_pct: u32) -> (Member, Cid) {
             }
             let mut c = Child::leaf(if streams { Kind::LeafStr } else { Kind::LeafFut }, script);
             c.parent = Some((0, idx));
+            c.wake_on_drop = w.chance(p.drop_wake_pct);
             if c.never {
                 w.st.never_children += 1;
             }
